@@ -76,17 +76,54 @@ class StmtMixin:
 
     def merge_all(self, states):
         out = None
+        flat = []
         for s in states:
+            if isinstance(s, list):
+                flat.extend(s)
+            elif s is not None:
+                flat.append(s)
+        for s in flat:
             out = self.merge(out, s) if out is not None else s
         return out
 
     # ------------------------------------------------------------ statements
     def ex_block(self, stmts, st):
-        for s in stmts or []:
+        stmts = stmts or []
+        for k, s in enumerate(stmts):
             if st is None:
                 return None
             st = self.ex(s, st)
+            if isinstance(st, list):
+                # path-split mode: run the rest of the block once per incoming path
+                outs = []
+                for one in st:
+                    o = self.ex_block(stmts[k + 1:], one)
+                    if isinstance(o, list):
+                        outs.extend(o)
+                    elif o is not None:
+                        outs.append(o)
+                return self.pack(outs)
         return st
+
+    def pack(self, outs):
+        outs = [o for o in outs if o is not None]
+        if not outs:
+            return None
+        if len(outs) == 1:
+            return outs[0]
+        return outs
+
+    def join(self, outs):
+        """Join of branch results: one merged state, or (path-split mode, outside loops) the list of paths."""
+        flat = []
+        for o in outs:
+            if isinstance(o, list):
+                flat.extend(o)
+            elif o is not None:
+                flat.append(o)
+        if getattr(self, "nomerge", False) and not self.in_loop and len(flat) <= 64:
+            return self.pack(flat)
+        return self.merge_all(flat)
 
     def ex(self, s, st):
         if z3.is_false(st.pc):
@@ -283,7 +320,7 @@ class StmtMixin:
             out2 = None
         elif s.get("Else"):
             out2 = self.ex(s["Else"], st2)
-        return self.merge(out1, out2)
+        return self.join([out1, out2])
 
     def ex_BranchStmt(self, s, st):
         tok = s["Tok"]
@@ -341,7 +378,7 @@ class StmtMixin:
             else:
                 outs.append(remaining)
         fr.loops.pop()
-        return self.merge_all([o for o in outs + ctx.breaks if o is not None])
+        return self.join(outs + ctx.breaks)
 
     def ex_TypeSwitchStmt(self, s, st):
         if s.get("Init"):
@@ -393,7 +430,7 @@ class StmtMixin:
         else:
             outs.append(remaining)
         fr.loops.pop()
-        return self.merge_all([o for o in outs + ctx.breaks if o is not None])
+        return self.join(outs + ctx.breaks)
 
     # ------------------------------------------------------------ loops
     def loop_clauses(self, s, kind):
@@ -607,7 +644,9 @@ class StmtMixin:
         body = head.fork(zand(head.pc, c))
         fr.loops.append(ctx)
         self.iter_stack.append(None)
+        self.in_loop += 1
         out = self.ex(s["Body"], body)
+        self.in_loop -= 1
         out = self.merge_all([o for o in [out] + ctx.continues if o is not None])
         if out is not None and s.get("Post"):
             out = self.ex(s["Post"], out)
@@ -642,7 +681,9 @@ class StmtMixin:
                 break
             body = cur.fork(zand(cur.pc, c))
             ctx.continues = []
+            self.in_loop += 1
             out = self.ex(s["Body"], body)
+            self.in_loop -= 1
             out = self.merge_all([o for o in [out] + ctx.continues if o is not None])
             if out is not None and s.get("Post"):
                 out = self.ex(s["Post"], out)
@@ -682,6 +723,10 @@ class StmtMixin:
             if isstr:
                 raise Unsupported("unrolled range over string")
             return self.unrolled_range(s, st, k, ctx, xv, n, xt)
+        if not self.loop_clauses(s, "invariant") and not isstr:
+            r = self.try_fold_summary(s, st, xv, n, xt, ctx)
+            if r is not NotImplemented:
+                return r
         itkey = ("iter", id(s))
         self.syn_types[itkey] = self.int_type
         st.vars[itkey] = idx(0)
@@ -710,7 +755,9 @@ class StmtMixin:
         elif isstr:
             _, step = self.decode_rune(body, xv, i)
         fr.loops.append(ctx)
+        self.in_loop += 1
         out = self.ex(s["Body"], body)
+        self.in_loop -= 1
         out = self.merge_all([o for o in [out] + ctx.continues if o is not None])
         fr.loops.pop()
         if out is not None:
@@ -765,7 +812,9 @@ class StmtMixin:
                 v = self.arr_get(xv, idx(it)) if u.k == "array" else self.slice_get(body, xv, idx(it))
                 self.assign_to(s["Value"], v, body, tok)
             ctx.continues = []
+            self.in_loop += 1
             out = self.ex(s["Body"], body)
+            self.in_loop -= 1
             cur = self.merge_all([o for o in [out] + ctx.continues if o is not None])
         fr.loops.pop()
         return self.merge_all([o for o in exits + ctx.breaks if o is not None])
